@@ -115,9 +115,24 @@ Proof.
   - subst e. inversion Hi; subst. eexists. split; [reflexivity|exact HR].
 Qed.
 
+Lemma sim_appendobj : forall fuel h os st i j, R (IS h os) st -> sim_goal fuel h os st (OAppendObj i j).
+Proof.
+  intros fuel h os st i j HR ist' ob Hi Hob.
+  pose proof (R_lookup h os st i HR) as Hl. pose proof (igive_sim h os st j HR) as Hg.
+  cbn [istep step i_objs] in *. destruct (Nat.eqb i j).
+  { inversion Hi; subst. eexists. split; [reflexivity|exact HR]. }
+  destruct (nth_error os i) as [[it|its|]|], (nth_error st i) as [[s|s u|]|]; cbn in Hl; try contradiction;
+    try (inversion Hi; subst; eexists; split; [reflexivity|exact HR]).
+  destruct (igive (IS h os) j) as [[[[h1 os1] itj]|]|e], (give st j) as [[[st1 sj]|]|e']; try contradiction.
+  - destruct Hg as (-> & HR1 & Hlen & lj & -> & Hr).
+    eapply iapply_sim; [apply (tcorr_append_obj h itj lj Hr)|exact HR1|exact Hi].
+  - inversion Hi; subst. eexists. split; [reflexivity|exact HR].
+  - subst e'. inversion Hi; subst. eexists. split; [reflexivity|exact HR].
+Qed.
+
 Lemma step_sim : forall fuel h os st o, R (IS h os) st -> fin_op o -> sim_goal fuel h os st o.
 Proof.
-  intros fuel h os st o HR Hfo. destruct o as [i|i c|i c|i c|i c|i|i p|i f|i p|i n|i|i n|z n|z n].
+  intros fuel h os st o HR Hfo. destruct o as [i|i c|i c|i c|i c|i|i p|i f|i p|i n|i|i n|z n|z n|i j].
   - apply sim_next; exact HR.
   - apply sim_take; exact HR.
   - apply sim_peek; exact HR.
@@ -133,6 +148,7 @@ Proof.
   - apply sim_tee; exact HR.
   - intros ist' ob Hi _. cbn in *. inversion Hi; subst. eexists. split; [reflexivity|exact HR].
   - intros ist' ob Hi _. cbn in *. inversion Hi; subst. eexists. split; [reflexivity|exact HR].
+  - apply sim_appendobj; exact HR.
 Qed.
 
 Lemma run_sim : forall fuel ops ist st, R ist st -> Forall fin_op ops ->
